@@ -113,6 +113,11 @@ func (m *runtimeContextManager) PushContext(ctx RuntimeContextDef) {
 	m.hardLimits = m.hardLimits.Remove(m.usedResources).Merge(ctx.HardLimits)
 	m.softLimits = m.hardLimits.Merge(m.softLimits).Merge(ctx.SoftLimits)
 	m.usedResources = RuntimeResources{}
+	// The new context counts cpu from zero, so the point at which the clock
+	// is next looked at must start from zero too: with the threshold of the
+	// parent, a child would not notice that its time is up before it has used
+	// as much cpu as the parent had.
+	m.nextCpuThreshold = 0
 	m.requiredFlags |= ctx.RequiredFlags
 
 	if ctx.HardLimits.Cpu > 0 {
